@@ -70,6 +70,8 @@ fn main() {
         "run" => driver::cmd_run(&pos, &flags),
         "worker" => driver::cmd_worker(&pos, &flags),
         "replay" => driver::cmd_replay(&pos, &flags),
+        "run-case" => driver::cmd_run_case(&pos),
+        "minimise-case" => driver::cmd_minimise_case(&pos),
         "selftest" => driver::cmd_selftest(&pos, &flags),
         "show" => driver::cmd_show(&pos, &flags),
         "holder" => std::process::exit(procs::cmd_holder(&args[1..])),
